@@ -82,6 +82,8 @@ def load_one(lit: LineIterator) -> dict:
                 result["bonds"] = bonds
     if not molecule_found:
         raise LoadError("Molecule could not be read.", lit)
+    if nbonds > 0 and "bonds" not in result:
+        raise LoadError(f"Expected {nbonds} bonds, but the BOND section is missing.", lit)
     return result
 
 
@@ -146,11 +148,22 @@ def load_many(lit: LineIterator) -> Iterator[dict]:
     """Do not edit this docstring. It will be overwritten."""
     # MOL2 files with more molecules are a simple concatenation of individual MOL2 files,'
     # making it trivial to load many frames.
-    try:
-        while True:
-            yield load_one(lit)
-    except (StopIteration, LoadError):
-        return
+    while True:
+        # Stop when there are no more molecules in the file.
+        try:
+            line = next(lit)
+            while line.split()[:1] != ["@<TRIPOS>MOLECULE"]:
+                line = next(lit)
+        except StopIteration:
+            return
+        lit.back(line)
+        # Errors in a molecule are not silenced. (A file that ends inside the last
+        # molecule results in StopIteration.)
+        try:
+            data = load_one(lit)
+        except StopIteration:
+            return
+        yield data
 
 
 @document_dump_one("MOL2", ["atcoords", "atnums"], ["atcharges", "atffparams", "title"])
